@@ -147,7 +147,13 @@ func (w *sworld) addAll(vs []int) {
 	}
 }
 
+// apply runs one op under a watchdog (sequential library code that does
+// not return, or allocates without bound, does not terminate).
 func (w *sworld) apply(o Op) {
+	vkit.Watch(tSet, "C18:set/"+o.Op+"/terminates", 30*time.Second, func() any { return w.c }, func() { w.applyStep(o) })
+}
+
+func (w *sworld) applyStep(o Op) {
 	w.cur = o
 	defer func() {
 		if r := recover(); r != nil {
